@@ -204,6 +204,35 @@ def run(tier, seed, replay=None):
                 if (want and x != want) or (not want and not x.startswith("E")):
                     res.failing.append(("archive-name-buffer", "SFileGetArchiveName with a %d-byte buffer for a %d-byte path answers %s" % (n, plen, x[:40]), case))
                     break
+    # ---- modifying calls: the same history through the C API and through the Rust API
+    mnames = [b"one.txt", b"Dir\\two.bin", b"three.dat", b"dir/four.txt"]
+    mdata = [b"", b"x", b"hello world " * 20, bytes(range(256)) * 3]
+
+    def mop():
+        k = r.random()
+        if k < 0.55:
+            return "a.%s.%s.%x.%x" % (C.hexs(r.choice(mnames)), C.hexs(r.choice(mdata)) or "-", r.choice([0, 0x80000000, 0x80000000, 0x80010000, 0x80030000]), r.choice([0, 2, 2, 0x10]))
+        if k < 0.7:
+            return "r.%s" % C.hexs(r.choice(mnames))
+        if k < 0.82:
+            return "m.%s.%s" % (C.hexs(r.choice(mnames)), C.hexs(r.choice(mnames + [b"renamed.bin"])))
+        return r.choice(["f", "c"])
+    ml_ = []
+    for i in range(60 if big else 16):
+        dd = os.path.join(base, "mod%d" % i)
+        os.makedirs(dd, exist_ok=True)
+        ml_.append("modhist %s %s" % (dd, ",".join(mop() for _ in range(r.randrange(1, 9)))))
+    mo_ = C.run_lines(fi, ml_, shards=min(C.NPROC, len(ml_)), timeout=900)
+    for c, o in zip(ml_, mo_):
+        res.case(c.replace(base, "<dir>"), nontrivial=True)
+        if not o.startswith("OK"):
+            res.failing.append(("modifying-calls-%s" % o.split(" ")[0].lower(), "the modifying calls of the C API and the Rust API disagree on a history: %s" % o[:120], {"command": c.replace(base, "<dir>")[:500]}))
+    # ---- SFileEnumFiles / locale / last-error setters
+    eo = C.run_lines(fi, ["enum " + p_ for p_ in paths], shards=1, timeout=300)
+    for p_, o in zip(paths, eo):
+        res.case("enum " + os.path.basename(p_), nontrivial=True)
+        if not o.startswith("OK"):
+            res.failing.append(("enum-files-%s" % o.split(" ")[0].lower(), "SFileEnumFiles / SFileSetLocale / SFileSetLastError: %s" % o[:80], {"command": "enum <%s>" % os.path.basename(p_)}))
     # ---- SFileExtractFile: several members in turn to the same local path (longer ones first, missing names in between)
     xl = []
     for wi, pth in enumerate(paths):
